@@ -19,6 +19,9 @@ const DAY: u64 = 86_400_000_000;
 
 struct Obs<'a> {
     machines: &'a [Machine],
+    /// machines seen moving to the end state in an earlier call (from the step log, independent of
+    /// the snapshot)
+    ended: Vec<bool>,
     shapes: Vec<HashSet<(u8, bool, bool, u8)>>,
     ended_calls: u64,
     clamped: u64,
@@ -52,7 +55,7 @@ impl<'a> Monitor for Obs<'a> {
                 self.clamped += 1;
                 out.bump("actions_clamped_to_one_day");
             }
-            if rec.before.machines[a.machine].current_state == STATE_END {
+            if rec.before.machines[a.machine].current_state == STATE_END || self.ended[a.machine] {
                 return Err((
                     "C04/action-after-end".into(),
                     format!("machine {} was in its end state before this call and yielded {a:?}", a.machine),
@@ -66,6 +69,18 @@ impl<'a> Monitor for Obs<'a> {
             });
             if a.bypass != a.replace {
                 out.bump("actions_with_asymmetric_flags");
+            }
+        }
+        for st in rec.log {
+            if let maybenot::verif::Step::Sampled { machine, next: Some(t) } = st {
+                if *t == STATE_END {
+                    self.ended[*machine] = true;
+                }
+            }
+        }
+        for (mi, m) in rec.after.machines.iter().enumerate() {
+            if self.ended[mi] && m.current_state != STATE_END {
+                return Err(("C04/ended-machine-revived".into(), format!("machine {mi} moved to its end state earlier but is in state {} after this call", m.current_state)));
             }
         }
         let ended = rec.before.machines.iter().filter(|m| m.current_state == STATE_END).count() as u64;
@@ -114,6 +129,7 @@ impl Prop for C04 {
             .collect();
         let mut mon = Obs {
             machines: &machines,
+            ended: vec![false; machines.len()],
             shapes,
             ended_calls: 0,
             clamped: 0,
